@@ -458,8 +458,30 @@ class FT:
             elif val == 'zeroinitializer': init = '{0}'
             elif k == 'num' and isinstance(t, (Int,)): init = val
             elif val in ('null',): init = '0'
+            elif val in ('{', '['):
+                # aggregate constant (e.g. the constexpr objects multi::_ / ALL): nested braces of integer / zero leaves; anything else stays non-deterministic
+                def agg(p_):
+                    k_, v_ = p_.next()
+                    if v_ in ('{', '['):
+                        close = '}' if v_ == '{' else ']'; parts = []
+                        if p_.accept(close): return '{0}'
+                        while True:
+                            p_.type(); x = agg(p_)
+                            if x is None: return None
+                            parts.append(x)
+                            if p_.accept(close): break
+                            p_.expect(',')
+                        return '{' + ', '.join(parts) + '}'
+                    if k_ == 'num' and re.fullmatch(r'-?\d+', v_): return '(-9223372036854775807LL-1)' if v_ == '-9223372036854775808' else v_ + 'LL'
+                    if v_ == 'zeroinitializer': return '{0}'
+                    if v_ in ('true', 'false'): return '1' if v_ == 'true' else '0'
+                    return None
+                try: init = agg(p)
+                except Unsupported: init = None
             else: init = None     # left non-deterministic (extern, no initialiser)
-            qual = 'static ' if init is not None else 'extern '
+            # IR `constant` objects with a known initialiser are emitted const: CBMC's contract instrumentation havocs every non-const static object
+            is_const = re.search(r'\bconstant\s', raw.split('=', 1)[1] if '=' in raw else raw) is not None
+            qual = ('static const ' if is_const else 'static ') if init is not None else 'extern '
             g.used_globals[v] = (qual + g.ct(t, 'G_' + cname(v)), init)
             g.gtypes = getattr(g, 'gtypes', {}); g.gtypes[v] = t
         return '(&G_%s)' % cname(v)
